@@ -80,7 +80,8 @@ THEOREMS = ["Okane.C07.C07_total", "Okane.C07.C07_closed_form", "Okane.C07.C07_r
 ALPHABET = "0159,.-"
 POSITIONS = ["amount", "paren", "neg", "cost", "total", "lot", "lottotal", "balance", "balonly", "format", "pricedb",
              "bare", "barebal", "factor",   # numbers written without a commodity
-             "tryfrom", "tryfromneg"]       # the library entry expr::Amount::try_from on `<lit> USD` / `-<lit> USD`
+             "tryfrom", "tryfromneg",       # the library entry expr::Amount::try_from on `<lit> USD` / `-<lit> USD`
+             "booked"]                      # the value book-keeping records for a posting `<lit> USD`, USD declared with two places
 
 # ---------------------------------------------------------------------------------------------
 # the property's statement, written a third time (python, regular expression) — independent of Lean and Rust
@@ -173,6 +174,16 @@ def oracle_pos(pos, s, rec):
             if dec(ws[1]) != "USD" or got != lit_value(s):
                 return "price-db rate %r read as %s %s" % (s, got, dec(ws[1]))
         return None
+    if pos == "booked":
+        # what is WRITTEN is what is booked, also when the commodity was declared with fewer places than the literal has
+        if rec.startswith("value "):
+            ws = rec.split(" ")
+            got = Fraction(int(ws[3]), 10 ** int(ws[4])) * (-1 if ws[2] == "1" else 1)
+            if not ok:
+                return "malformed / unrepresentable amount %r booked (as %s)" % (s, got)
+            if got != lit_value(s):
+                return "posting written %r USD (USD declared with two places) is booked as %s" % (s, got)
+        return None
     if pos in ("tryfrom", "tryfromneg"):
         # unary_amount takes ONE leading minus itself and flips the sign of what follows: `-<lit>` is the literal `-lit`
         # when lit has no sign of its own; doubly signed texts (`--5` = 5) are the importer's business (C16_cell_minus_signs)
@@ -183,6 +194,10 @@ def oracle_pos(pos, s, rec):
         if rec.startswith("ok ") and lit_value(s) == 0 and wellformed(s):
             return None     # the sign of a zero is not the property's subject
         ok = wellformed(s) and representable(s)
+        if rec.startswith("shape") and not ok:
+            # `<text> USD` was accepted with another commodity: the reader took a PREFIX of the text as the number and dropped the
+            # rest (`12.50-`, `7-2`): an ill-formed number text must be rejected, not reinterpreted
+            return "ill-formed number text %r accepted by Amount::try_from (a prefix was read, the rest dropped): %s" % (s, rec)
     if rec.startswith("ok "):
         base, _, fmt = rec.partition(" fmt=")
         msg = oracle_lit(s, base)
@@ -270,7 +285,7 @@ def run(chk):
     chk.rule = ("lit: every string over {0,1,5,9,',','.','-'} up to length 6 (quick) / 7 (thorough) + random literals of up to 45 digits "
                 "(plain / grouped / leading zeros / 0-45 decimal places / around 2^96, 10^28, 2^127; 25% mutated: stray or missing "
                 "separator, incomplete group, trailing or leading junk incl. non-ASCII) through PrettyDecimal::from_str + to_string; "
-                "pos: every string up to length 3 (quick) / 4 (thorough) + random ones embedded in 16 syntactic positions (three of them without a commodity, two through expr::Amount::try_from) through the real "
+                "pos: every string up to length 3 (quick) / 4 (thorough) + random ones embedded in 17 syntactic positions (three of them without a commodity, two through expr::Amount::try_from, one observed as the value book-keeping records for a posting in a commodity declared with two places) through the real "
                 "ledger parser / price-db loader. Distinct = distinct (stream, position, text); non-trivial = contains a digit.")
     chk.assumptions = ["rust_decimal Display / rescale / try_from_i128_with_scale and winnow take_while / try_map semantics are modelled from "
                        "their sources (validated by this correspondence only)",
@@ -340,7 +355,7 @@ def run(chk):
         chk.violation("c07 pos stream: tools returned %d/%d records for %d cases" % (len(pimpl), len(pmodel), len(plines)),
                       {"stream": "pos"}, no_failing_input=True, tag="corr")
         return
-    chk.streams["pos:16 positions x literals"] = len(plines)
+    chk.streams["pos:17 positions x literals"] = len(plines)
     for (p, s), a, b in zip(pcases, pimpl, pmodel):
         chk.case(("pos", p, s), nontrivial=any(c.isdigit() for c in s))
         chk.traces += 1
@@ -354,6 +369,9 @@ def run(chk):
             chk.violation("literal %r as %s: %s" % (s, p, msg), replay)
             continue
         # model vs implementation
+        if p == "booked":
+            chk.count("pos-booked:" + a.split(" ")[0])
+            continue        # judged by the oracle alone: the book-keeping model is C01's / C08's
         if b == "partial" or b == "fuel":
             chk.count("pos-model:no-prediction")
             continue
@@ -370,7 +388,7 @@ def run(chk):
             else:
                 same = b == a
         else:
-            same = (a.partition(" fmt=")[0] == b) or (b == "parse-err" and a.startswith("shape"))
+            same = (a.partition(" fmt=")[0] == b) or (b == "parse-err" and a.startswith("shape") and not p.startswith("tryfrom"))
         if not same:
             chk.disagreements += 1
             chk.violation("model and real parser disagree on literal %r as %s (property oracle holds)" % (s, p),
